@@ -126,10 +126,11 @@ type c07Want struct {
 	I [2][2]bool `json:"i"` // X_s.Intersects(Y_u)
 }
 
-// c07Spans reports whether some edge-free index cell of x strictly contains at least two
-// index cells of y (the precondition of the branch of loopCrosser.hasCrossingRelation that
-// reasons from edge-free interior cells).
-func c07Spans(x, y *s2.ShapeIndex) bool {
+// c07Spans reports the largest number of index cells of y strictly contained in one
+// edge-free index cell of x (capped at 2).  >= 1 is the precondition of the branch of
+// loopCrosser.hasCrossingRelation that reasons from edge-free interior cells; the evidence
+// counts the pairs with >= 2 (one empty cell spanning several cells of the other index).
+func c07Spans(x, y *s2.ShapeIndex) int {
 	x.Build()
 	y.Build()
 	xc := s2.VerifIndexCells(x)
@@ -139,6 +140,7 @@ func c07Spans(x, y *s2.ShapeIndex) bool {
 		ids[i] = uint64(c.ID)
 	}
 	sort.Slice(ids, func(i, j int) bool { return ids[i] < ids[j] })
+	best := 0
 	for _, c := range xc {
 		edges := 0
 		for _, s := range c.Shapes {
@@ -157,28 +159,39 @@ func c07Spans(x, y *s2.ShapeIndex) bool {
 			}
 		}
 		if n >= 2 {
-			return true
+			return 2
+		}
+		if n > best {
+			best = n
 		}
 	}
-	return false
+	return best
 }
 
-func c07SpanClass(recv, arg []*s2.Loop) string {
+// c07SpanClass classifies a call recv.rel(arg) by the index structure of the loops involved:
+// recv-span / arg-span when an edge-free cell of a loop of recv / arg strictly contains an
+// index cell of a loop of the other region.  many reports whether some such cell contains >= 2.
+func c07SpanClass(recv, arg []*s2.Loop) (cls string, many bool) {
+	cls = "nospan"
 	for _, x := range recv {
 		for _, y := range arg {
-			if c07Spans(s2.VerifLoopIndex(x), s2.VerifLoopIndex(y)) {
-				return "recv-span"
+			if n := c07Spans(s2.VerifLoopIndex(x), s2.VerifLoopIndex(y)); n > 0 {
+				cls = "recv-span"
+				many = many || n >= 2
 			}
 		}
 	}
 	for _, x := range recv {
 		for _, y := range arg {
-			if c07Spans(s2.VerifLoopIndex(y), s2.VerifLoopIndex(x)) {
-				return "arg-span"
+			if n := c07Spans(s2.VerifLoopIndex(y), s2.VerifLoopIndex(x)); n > 0 {
+				if cls == "nospan" {
+					cls = "arg-span"
+				}
+				many = many || n >= 2
 			}
 		}
 	}
-	return "nospan"
+	return
 }
 
 type c07Answers struct {
@@ -258,11 +271,10 @@ func opC07Pair(raw json.RawMessage, o *Out) {
 	var spanXY, spanYX [2][2]string
 	for s := 0; s < 2; s++ {
 		for u := 0; u < 2; u++ {
-			spanXY[s][u] = c07SpanClass(xl[s], yl[u])
-			spanYX[s][u] = c07SpanClass(yl[u], xl[s])
-			if spanXY[s][u] != "nospan" {
-				spanAny = true
-			}
+			var many bool
+			spanXY[s][u], many = c07SpanClass(xl[s], yl[u])
+			spanYX[s][u], _ = c07SpanClass(yl[u], xl[s])
+			spanAny = spanAny || many
 		}
 	}
 	if spanAny {
@@ -607,7 +619,7 @@ func c07Observe(seed int64, k int) c07Event {
 			ev.D[s][u] = ys[u].Contains(xs[s])
 			ev.I[s][u] = xs[s].Intersects(ys[u])
 			ev.J[s][u] = ys[u].Intersects(xs[s])
-			if c07Spans(s2.VerifLoopIndex(xs[s]), s2.VerifLoopIndex(ys[u])) || c07Spans(s2.VerifLoopIndex(ys[u]), s2.VerifLoopIndex(xs[s])) {
+			if c07Spans(s2.VerifLoopIndex(xs[s]), s2.VerifLoopIndex(ys[u])) > 0 || c07Spans(s2.VerifLoopIndex(ys[u]), s2.VerifLoopIndex(xs[s])) > 0 {
 				ev.Span = true
 			}
 		}
